@@ -1699,6 +1699,23 @@ pub mod verif_hooks {
     //! Verification-build access to the private helpers of this module (wrappers only).
     use super::{HashMap, Result};
 
+    /// Cells that carry a pending c-string with the given text (not observable through the public
+    /// API before serialization).
+    pub fn pending_c_string_cells(archive: &super::BinArchive, text: &str) -> Vec<usize> {
+        match archive.cstrings.get(text) {
+            Some(cells) => cells.clone(),
+            None => Vec::new(),
+        }
+    }
+
+    pub fn pending_c_string_count(archive: &super::BinArchive) -> usize {
+        let mut n = 0;
+        for cells in archive.cstrings.values() {
+            n += cells.len();
+        }
+        n
+    }
+
     pub fn validate_address(address: usize, size: usize, end_is_valid: bool) -> Result<()> {
         super::validate_address(address, size, end_is_valid)
     }
